@@ -130,10 +130,16 @@ class Ledger:
         self.violations: List[dict] = []
         self.goaway = 0
         self.order: List[Tuple[str, int, int]] = []      # (kind, sid, n) in wire order
+        self.up_frames: List[Tuple[int, int, int]] = []  # DATA frames the client sent: (sid, flow-controlled length, payload bytes)
+        self.up_credit: Dict[int, int] = {}              # WINDOW_UPDATE increments the server sent, per stream (0 = connection)
 
     # ---- what the client sends ----
     def client_sends(self, data: bytes) -> None:
         for typ, flags, sid, payload in parse_frames(data):
+            if typ == 0:
+                pad = (payload[0] + 1) if (flags & 0x8 and payload) else 0
+                self.up_frames.append((sid, len(payload), len(payload) - pad))
+                continue
             if typ == 1 and sid not in self.win:
                 self.win[sid] = self.iw_fed
                 self.epoch[sid] = self.nfed
@@ -205,6 +211,8 @@ class Ledger:
                     self.max_frame = st["mf"]
             elif typ == 7:
                 self.goaway += 1
+            elif typ == 8:
+                self.up_credit[sid] = self.up_credit.get(sid, 0) + (int.from_bytes(payload[0:4], "big") & 0x7FFFFFFF)
 
 
 # --------------------------------------------------------------------------------------------------------------
@@ -251,7 +259,13 @@ class H2Drive:
         self.runaway = False
         self.same_pick = 0
         self.in_closed: Dict[str, int] = {}
-        self.ghost_at: Optional[int] = None
+        self.ghost_at: Optional[int] = None       # first answer of next(priority) that is no unblocked member of the tree (any kind)
+        self.unmodelled_at: Optional[int] = None  # … first one the model has no step for (a *blocked member*); a non-member is `rebuild`
+        self.rebuilds = 0
+        self.acks: List[list] = []                # acknowledge_received_data calls: [stream id, amount]
+        self.data_events: List[list] = []         # DataReceived events h2 handed to the protocol: [stream id, flow-controlled length, payload bytes]
+        self.upload_stalls: List[dict] = []       # upload frames the client could not send for want of window at quiescence
+        self.uploaded: Dict[int, int] = {}        # upload frames sent per stream
         self.client_rst: List[int] = []
         self.heads: List[dict] = []               # stream events that carry no model op of `h2send.run`: Response / Trailers, with the
                                                   # position (op index) at which `stream_send` was called (C02: `h2wire.run`)
@@ -322,7 +336,7 @@ class H2Drive:
                 self.note_id(op[k])
         if self.runaway:
             return                      # already reported; the rest of the run is not recorded
-        if self.ops and op.get("op") in ("pick", "pickRaise") and self.ops[-1].get("op") in ("pick", "pickRaise"):
+        if self.ops and op.get("op") in ("pick", "pickRaise", "rebuild") and self.ops[-1].get("op") in ("pick", "pickRaise", "rebuild"):
             self.same_pick += 1         # picks with nothing in between (each either sends or blocks a stream): no progress is being made
         else:
             self.same_pick = 0
@@ -341,9 +355,11 @@ class H2Drive:
         HC = h2.connection.H2Connection
         SB = hh2.StreamBuffer
         self._orig = {"pt": {n: getattr(PT, n) for n in ("__next__", "block", "unblock", "insert_stream", "remove_stream", "reprioritize")},
-                      "hc": {n: getattr(HC, n) for n in ("send_data", "end_stream", "reset_stream", "local_flow_control_window", "send_headers")},
+                      "hc": {n: getattr(HC, n) for n in ("send_data", "end_stream", "reset_stream", "local_flow_control_window", "send_headers",
+                                                     "acknowledge_received_data")},
                       "sb": {n: getattr(SB, n) for n in ("__init__", "push", "pop", "drain", "close", "set_complete")}}
         o = self._orig
+        o["hc_receive"] = HC.receive_data
 
         def mine(tree) -> bool:
             return d.proto is not None and tree is d.proto.priority
@@ -362,10 +378,20 @@ class H2Drive:
                 raise
             d.rec("next", sid)
             node = tree._streams.get(sid)
-            if (node is None or not node.active) and d.ghost_at is None:
+            if node is None or not node.active:
                 # the library assumption "next() returns an unblocked member of the tree" fails (priority 2.0.0 after a
-                # dependency loop keeps a removed node scheduled): the model cannot follow from here; the monitors still judge
-                d.ghost_at = len(d.ops)
+                # dependency loop keeps a removed node scheduled)
+                if d.ghost_at is None:
+                    d.ghost_at = len(d.ops)
+                if node is None:
+                    # a stream the tree does not know: `_send_data` finds no buffer, `remove_stream` raises MissingStreamError and
+                    # the tree is rebuilt from the buffered streams - one step of the extended model (`XOp.rebuild`)
+                    d.rebuilds += 1
+                    d.emit({"op": "rebuild", "i": sid})
+                    d.pick_cur = None
+                    return sid
+                if d.unmodelled_at is None:
+                    d.unmodelled_at = len(d.ops)      # a blocked member: the model cannot follow from here; the monitors still judge
             d.emit({"op": "pick", "i": sid})
             d.pick_cur, d.pick_flushes, d.pick_ended = sid, 0, False
             return sid
@@ -397,6 +423,8 @@ class H2Drive:
                         d.ops[-1] = {"op": "pickRaise", "i": d.ops[-1]["i"]}      # h2 no longer knows the stream
                     raise
                 d.rec("h2." + name, a[0] if a else None, len(a[1]) if name == "send_data" else None)
+                if name == "acknowledge_received_data":
+                    d.acks.append([a[1] if len(a) > 1 else k.get("stream_id"), a[0] if a else k.get("acknowledged_size")])
                 me = d.me()
                 if (name == "end_stream" or (name == "send_headers" and k.get("end_stream"))) and me == SENDTASK:
                     d.pick_ended = True          # `_end_stream`: the empty DATA frame, or the trailers HEADERS frame, with END_STREAM
@@ -405,8 +433,16 @@ class H2Drive:
                 return r
             return f
 
-        def sb_init(buf, event_class):
-            o["sb"]["__init__"](buf, event_class)
+        def hc_receive(conn, data):
+            evs = o["hc_receive"](conn, data)
+            if d.proto is not None and conn is d.proto.connection:
+                for ev in evs:
+                    if isinstance(ev, h2.events.DataReceived):
+                        d.data_events.append([ev.stream_id, ev.flow_controlled_length, len(ev.data)])
+            return evs
+
+        def sb_init(buf, *a, **k):              # whatever the constructor takes: the tap must not pin its signature
+            o["sb"]["__init__"](buf, *a, **k)
             d.ev_owner[id(buf._paused)] = (buf, "paused")
             d.ev_owner[id(buf._is_empty)] = (buf, "empty")
 
@@ -439,8 +475,9 @@ class H2Drive:
         PT.__next__ = pt_next
         for n in ("block", "unblock", "insert_stream", "remove_stream", "reprioritize"):
             setattr(PT, n, pt_simple(n))
-        for n in ("send_data", "end_stream", "reset_stream", "local_flow_control_window", "send_headers"):
+        for n in ("send_data", "end_stream", "reset_stream", "local_flow_control_window", "send_headers", "acknowledge_received_data"):
             setattr(HC, n, hc_simple(n))
+        HC.receive_data = hc_receive
         SB.__init__, SB.push, SB.pop, SB.drain, SB.close, SB.set_complete = sb_init, sb_push, sb_pop, sb_drain, sb_close, sb_set_complete
         self._classes = (PT, HC, SB)
 
@@ -450,6 +487,7 @@ class H2Drive:
             setattr(PT, n, f)
         for n, f in self._orig["hc"].items():
             setattr(HC, n, f)
+        HC.receive_data = self._orig["hc_receive"]
         for n, f in self._orig["sb"].items():
             setattr(SB, n, f)
 
@@ -741,6 +779,51 @@ class H2Drive:
                     ops.append({"op": "winStream", "i": sid, "k": inc})
         return ops
 
+    async def upload(self, act: dict) -> None:
+        """the client sends one DATA frame of a request body if its own view of the windows allows; if not, it first lets
+        the server come to rest (every WINDOW_UPDATE the server will ever send for what it has received is then in) and
+        tries once more; a frame that still does not fit is an upload stalled for want of credit"""
+        sid, n, pad = act["sid"], act["n"], act.get("pad")
+        need = n + (0 if pad is None else pad + 1)
+        conn = self.client.conn
+        if any(x["sid"] == sid for x in self.upload_stalls):
+            self.skipped.append(act)          # already reported for this stream
+            return
+        for attempt in (0, 1):
+            st = conn.streams.get(sid)
+            if st is None or st.closed or self.client.error or self.proto.closed:
+                self.skipped.append(act)
+                return
+            try:
+                room = conn.local_flow_control_window(sid)
+            except h2.exceptions.ProtocolError:
+                self.skipped.append(act)
+                return
+            if need <= room and need <= conn.max_outbound_frame_size:
+                try:
+                    conn.send_data(sid, bytes([(sid + n) & 0xFF]) * n, end_stream=bool(act.get("end")), pad_length=pad)
+                except h2.exceptions.ProtocolError:
+                    self.skipped.append(act)
+                    return
+                self.uploaded[sid] = self.uploaded.get(sid, 0) + 1
+                await self.client_flush()
+                return
+            if need > conn.max_outbound_frame_size:
+                self.skipped.append(act)
+                return
+            if attempt == 0:
+                await self.settle()
+                await self.client_flush()
+                await self.settle()
+        try:
+            cw = conn.outbound_flow_control_window
+            sw = conn.streams[sid].outbound_flow_control_window
+        except Exception:  # noqa
+            cw = sw = None
+        self.upload_stalls.append({"sid": sid, "frame": need, "client_stream_window": sw, "client_conn_window": cw, "frames_sent": self.uploaded.get(sid, 0),
+                                   "flow_controlled_bytes_sent": sum(f[1] for f in self.ledger.up_frames),
+                                   "window_updates_received": dict(self.ledger.up_credit)})
+
     def settings_ok(self, v: int) -> bool:
         """the h2 library in client role cannot represent a negative receive window (it raises FlowControlError when a
         smaller INITIAL_WINDOW_SIZE is acknowledged), so a decrease is only sent when every open stream can absorb it"""
@@ -829,8 +912,10 @@ class H2Drive:
                     if act.get("prio"):
                         pr = act["prio"]
                         kw = {"priority_weight": pr.get("weight", 16), "priority_depends_on": pr.get("dep", 0), "priority_exclusive": bool(pr.get("excl", False))}
+                    if act.get("upload"):
+                        hdrs = C.h2_headers("POST", f"/s{sid}", extra=[(b"te", b"trailers")] if act.get("te") else None)
                     try:
-                        self.client.conn.send_headers(sid, hdrs, end_stream=True, **kw)
+                        self.client.conn.send_headers(sid, hdrs, end_stream=not act.get("upload"), **kw)
                     except h2.exceptions.ProtocolError:
                         self.skipped.append(act)
                         continue
@@ -838,6 +923,8 @@ class H2Drive:
                     await self.client_flush()
                     if "app" in act:
                         self.start_app(sid, act["app"])
+                elif k == "data":              # request body: one DATA frame (payload n bytes, `pad` = pad length or None, END_STREAM?)
+                    await self.upload(act)
                 elif k == "app":
                     self.start_app(act["sid"], act["app"])
                 elif k == "win":
@@ -990,7 +1077,11 @@ class H2Drive:
                 "apps": apps, "held_max": dict(self.held_max), "max_write": dict(self.max_write), "sendtask_error": self.sendtask_error, "reader_error": self.reader_error,
                 "errors": self.errors, "next_calls": self.next_calls, "lib_calls": self.lib_calls, "up": self.up,
                 "log": self.log if self.sc.get("keep_log") else self.log[-40:],
-                "sched_points": self.sched.points, "skipped": self.skipped, "client_rst": list(self.client_rst), "ghost_at": self.ghost_at, "runaway": self.runaway}
+                "sched_points": self.sched.points, "skipped": self.skipped, "client_rst": list(self.client_rst), "ghost_at": self.ghost_at, "unmodelled_at": self.unmodelled_at,
+                "rebuilds": self.rebuilds, "runaway": self.runaway,
+                "upload": {"frames": [list(f) for f in self.ledger.up_frames], "acks": [list(a) for a in self.acks], "data_events": [list(e) for e in self.data_events], "stalls": list(self.upload_stalls),
+                           "window_updates": dict(self.ledger.up_credit),
+                           "client_conn_window": self.client.conn.outbound_flow_control_window}}
 
 
 def expected_payload(sid: int, sizes: List[int]) -> bytes:
@@ -1069,7 +1160,7 @@ def compare(res: dict, model: dict) -> Optional[dict]:
     steps = model["ok"]["steps"]
     ops, snaps = res["ops"], res["snaps"]
     for k, (op, st) in enumerate(zip(ops, steps)):
-        if st.get("skipped") or (res.get("ghost_at") is not None and k >= res["ghost_at"]):
+        if st.get("skipped") or (res.get("unmodelled_at") is not None and k >= res["unmodelled_at"]):
             break
         if not st["en"]:
             return {"at": k, "op": op, "what": "op taken by the implementation is not enabled in the model", "model_state": _brief(st["st"], op),
@@ -1222,6 +1313,118 @@ def gen_scenario(rng: random.Random, profile: str = "flow") -> dict:
 
 
 # --------------------------------------------------------------------------------------------------------------
+# PRIORITY dependency loops: the priority library (2.0.0) keeps a stream that has completed scheduled after a loop was
+# reprioritized; `_send_data` recovers by rebuilding the tree - whilst other streams are mid-transfer with a sender waiting
+# --------------------------------------------------------------------------------------------------------------
+def loop_scenario(seed: int, density: float, trio_like: bool, big: List[int], small_delay: int, chain: int = 3, loop: Optional[Tuple[int, int]] = None,
+                  window: int = 1 << 24, via: str = "headers", silent: bool = True, big_at: int = 0) -> dict:
+    """streams 1, 3, 5, … each depending on the one before; then a PRIORITY frame making `loop[0]` depend on its descendant
+    `loop[1]`.  The child of `loop[1]` (the stream the library then keeps under two parents) answers with a small body after
+    `small_delay` turns and completes whilst stream number `big_at` of the chain is part way through streaming `big` (writes
+    that wait on the stream buffer); the other streams stay silent for long (or answer a little later).  The client's windows
+    are wide open from the start: it owes the server no WINDOW_UPDATE, nothing but the send task's own bookkeeping can keep the
+    transfer going."""
+    sids = [1 + 2 * k for k in range(chain)]
+    loop = loop or (sids[0], sids[1])
+    small = sids[min(chain - 1, sids.index(loop[1]) + 1)]
+    bigs = sids[big_at] if sids[big_at] != small else sids[0]
+    acts: List[dict] = [{"do": "winconn", "n": window}] if window > 65535 else []
+    for k, sid in enumerate(sids):
+        if sid == bigs:
+            app = [{"turns": 40}, {"start": 200}] + [{"body": n, "more": True} for n in big] + [{"body": 0, "more": False}]
+        elif sid == small:
+            app = [{"turns": 40 + small_delay}, {"start": 200}, {"body": 100, "more": False}]
+        else:
+            app = [{"turns": 400 if silent else 45 + small_delay}, {"start": 200}, {"body": 10, "more": False}]
+        a: Dict[str, Any] = {"do": "open", "sid": sid, "app": app}
+        if k and via == "headers":
+            a["prio"] = {"dep": sids[k - 1]}
+        acts.append(a)
+    if via == "frames":
+        for k, sid in enumerate(sids):
+            if k:
+                acts.append({"do": "prio", "sid": sid, "dep": sids[k - 1]})
+    acts += [{"do": "prio", "sid": loop[0], "dep": loop[1]}, {"do": "settle", "tag": "loop"}, {"do": "drain_all"}]
+    return {"seed": seed, "density": density, "trio_like": trio_like, "initial_window": window, "max_frame": None, "profile": "loop", "actions": acts,
+            "apps": {str(bigs): {"kind": "big", "sizes": big}, str(small): {"kind": "small", "sizes": [100]}}}
+
+
+def loop_corpus() -> List[dict]:
+    """deterministic: the shape of the defect the recovery exists for (F72) with a transfer in progress, over the schedule
+    parameters that decide whether the tree is rebuilt before, whilst or after the big stream's sender waits"""
+    out = []
+    for k, delay in enumerate([0, 1, 2, 3, 5, 8, 10, 14]):
+        for seed in (0, 1, 2):
+            out.append(loop_scenario(seed, 0.2 if seed else 0.5, bool((k + seed) % 2), [262144] if (k + seed) % 3 else [70000, 70000, 70000], delay,
+                                     chain=3 + (k % 2), via="frames" if (k + seed) % 4 == 0 else "headers"))
+    return out
+
+
+def gen_loop_scenario(rng: random.Random) -> dict:
+    chain = rng.choice([3, 3, 4, 5])
+    sids = [1 + 2 * k for k in range(chain)]
+    b = rng.randrange(1, chain - 1) if rng.random() < 0.8 else chain - 1      # mostly a descendant that has a child of its own
+    a = rng.randrange(0, b)
+    big = [rng.choice([40000, 70000, 131072, 262144]) for _ in range(rng.choice([1, 1, 2, 3]))]
+    return loop_scenario(rng.randrange(1 << 30), rng.choice([0.0, 0.2, 0.5, 1.0]), rng.random() < 0.5, big, rng.choice([0, 1, 2, 3, 5, 8, 13, 20]), chain=chain,
+                         loop=(sids[a], sids[b]), window=rng.choice([1 << 24, 1 << 24, 1 << 20, 65535]), via=rng.choice(["headers", "frames"]),
+                         silent=rng.random() < 0.7, big_at=rng.choice([0, 0, 0, 1, 2]) % chain)
+
+
+# --------------------------------------------------------------------------------------------------------------
+# uploads: request bodies in DATA frames with and without padding (what a frame takes from the client's windows is its
+# flow-controlled length: payload + pad-length byte + padding), more of them than the 65535-byte windows hold
+# --------------------------------------------------------------------------------------------------------------
+def upload_scenario(seed: int, density: float, trio_like: bool, streams: List[dict], profile: str = "upload") -> dict:
+    """streams: [{"frames": [[n, pad|None], …], "answer": "late"|"early"|"never_reads", "body": response bytes}]; the frames of the
+    streams are interleaved round-robin; `early` = the application answers (and the stream is forgotten) before the upload ends"""
+    acts: List[dict] = []
+    sids = [1 + 2 * k for k in range(len(streams))]
+    for sid, st in zip(sids, streams):
+        late = st.get("answer", "late") == "late"
+        app = [{"turns": 3000 if late else 2}, {"start": 200}, {"body": st.get("body", 10), "more": False}]
+        acts.append({"do": "open", "sid": sid, "app": app, "upload": True})
+    queues = [[(sid, f, k == len(st["frames"]) - 1) for k, f in enumerate(st["frames"])] for sid, st in zip(sids, streams)]
+    while any(queues):
+        for qu in queues:
+            if qu:
+                sid, (n, pad), last = qu.pop(0)
+                acts.append({"do": "data", "sid": sid, "n": n, "pad": pad, "end": last})
+    acts += [{"do": "settle", "tag": "uploaded"}, {"do": "drain_all"}]
+    return {"seed": seed, "density": density, "trio_like": trio_like, "initial_window": 65535, "max_frame": None, "profile": profile, "actions": acts,
+            "apps": {str(sid): {"kind": "upload-" + st.get("answer", "late"), "sizes": [st.get("body", 10)]} for sid, st in zip(sids, streams)}}
+
+
+def upload_corpus() -> List[dict]:
+    return [
+        # more padding than the windows hold: 300 frames of 1 byte + 255 bytes of padding = 76 800 flow-controlled bytes
+        upload_scenario(1, 0.0, False, [{"frames": [[1, 255]] * 300}]),
+        # large padded frames on two streams, one answered (and forgotten by the server) before its upload ends
+        upload_scenario(2, 0.2, True, [{"frames": [[16000, 255]] * 6, "answer": "early"}, {"frames": [[8000, 100]] * 10 + [[0, 0]]}]),
+        # PADDED flag with no padding (one byte of overhead), empty padded frames, unpadded frames in between
+        upload_scenario(3, 0.5, False, [{"frames": [[0, 255], [5, 0], [16384, None], [0, 0], [100, 7]] * 40}]),
+        # baseline: no padding at all
+        upload_scenario(4, 0.2, False, [{"frames": [[16384, None]] * 10}, {"frames": [[1, None]] * 50, "answer": "early"}]),
+    ]
+
+
+def gen_upload_scenario(rng: random.Random) -> dict:
+    streams = []
+    for _ in range(rng.choice([1, 1, 2, 3])):
+        kind = rng.choice(["tiny_padded", "big_padded", "mixed", "plain"])
+        if kind == "tiny_padded":
+            frames = [[rng.choice([0, 1, 10]), rng.choice([255, 200, 100])] for _ in range(rng.choice([100, 200, 320]))]
+        elif kind == "big_padded":
+            frames = [[rng.choice([8000, 16000, 16128]), rng.choice([0, 1, 255])] for _ in range(rng.choice([4, 8, 12]))]
+        elif kind == "mixed":
+            frames = [[rng.choice([0, 1, 100, 5000, 16000]), rng.choice([None, None, 0, 5, 255])] for _ in range(rng.choice([20, 60, 120]))]
+        else:
+            frames = [[rng.choice([1, 1000, 16384]), None] for _ in range(rng.choice([5, 10, 20]))]
+        streams.append({"frames": frames, "answer": rng.choice(["late", "late", "early"]), "body": rng.choice([0, 10, 20000])})
+    return upload_scenario(rng.randrange(1 << 30), rng.choice([0.0, 0.2, 0.5, 1.0]), rng.random() < 0.5, streams)
+
+
+# --------------------------------------------------------------------------------------------------------------
 # monitors: the property statements evaluated on the implementation's own observations (never on the model)
 # --------------------------------------------------------------------------------------------------------------
 def written_sizes(sc: dict, res: dict, sid: int) -> List[int]:
@@ -1317,6 +1520,22 @@ def monitor_c09(sc: dict, res: dict) -> List[Tuple[str, Any, dict]]:
                 if q["ledger"]["win"].get(sid, 0) > 0 and q["ledger"]["conn"] > 0:
                     out.append(("stalled_with_credit", {"sid": sid, "buffered": n, "stream_window": q["ledger"]["win"].get(sid), "conn_window": q["ledger"]["conn"],
                                                        "at": q["at"]}, base))
+    # received data is acknowledged so that the client's upload windows reopen: (a) the client's view - a request body frame the
+    # client cannot send for want of window although the server has come to rest (everything it received was consumed, every
+    # WINDOW_UPDATE it will ever send is in); (b) conservation at the library boundary - every DataReceived event h2 handed to
+    # the protocol is acknowledged with exactly its flow-controlled length (padding included), for its stream, in order
+    up = res.get("upload") or {}
+    if up.get("stalls") and f["terminal"] is None and not res["reader_error"] and not res["client"]["error"]:
+        out.append(("upload_stalled_for_want_of_credit", up["stalls"][0], {**base, "kind": "client_window_exhausted"}))
+    if up.get("data_events") is not None and not res["reader_error"]:
+        want = [[e[0], e[1]] for e in up["data_events"]]
+        got = up.get("acks", [])
+        if want != got:
+            k = next((i for i, (a, b) in enumerate(zip(want, got)) if a != b), min(len(want), len(got)))
+            out.append(("upload_credit_not_returned", {"data_event_index": k, "event[stream, flow_controlled_length, payload]": (up["data_events"][k] if k < len(want) else None),
+                                                      "acknowledged[stream, amount]": (got[k] if k < len(got) else None),
+                                                      "flow_controlled_total": sum(a[1] for a in want), "acknowledged_total": sum(a[1] for a in got)},
+                        {**base, "kind": "padded" if k < len(want) and up["data_events"][k][1] != up["data_events"][k][2] else "unpadded"}))
     # no spinning: scheduler turns are bounded by the work done
     data_frames = sum(len(v) for v in led["frames"].values())
     if res["next_calls"] > 4 * (data_frames + len(res["ops"])) + 16:
